@@ -565,8 +565,9 @@ def sf_bytes_all(E, st, args, kw):
 def sf_nth(E, st, args, kw):
     """nth(s, i): the i-th byte as an int, total (no IndexError): for spec use under a range hypothesis"""
     s, i = args
-    from .ops import byte_int
-    return [('val', st, mk_int(byte_int(E, st, zbytes(s)[zint(i)])))]
+    from .ops import byte_int, seq_nth
+    # (same element spelling as the code side builds: ops.seq_nth)
+    return [('val', st, mk_int(byte_int(E, st, seq_nth(E, st, zbytes(s), zint(i)))))]
 
 
 def sf_ite(E, st, args, kw):
